@@ -41,6 +41,7 @@ def run(ck, fb):
     r05c(ck, fb)
     r05d(ck, fb)
     r05e(ck, fb)
+    r05g(ck, fb)
     ck.borrow('rules.c08', {'R08b': 'R05f'}, 'membership/addresses of an installed snapshot reach the index file')
 
 
@@ -50,6 +51,9 @@ def r05a(ck, fb):
                     'RaftIndexInnerManager::write_index(index) and puts inner back')
     h = ck.body(HANDLER, 'R05a')
     if h:
+        ck.require(h.rec.get('trait_args') is not None, 'R05a', 'handle:exists', h.where(), '')
+        # the dispatch may sit in a helper the trait method delegates to
+        h = util.body_with_call(fb, h, re.escape(IM + 'write_hard_state') + '$')
         for variant, fn in SAVE_ROUTES.items():
             sites = h.calls(re.escape(IM + fn) + '$')
             ok = False
@@ -59,7 +63,6 @@ def r05a(ck, fb):
                     ok = True
             ck.require(ok, 'R05a', 'handle:%s->%s' % (variant, fn), h.where(),
                        'RaftIndexRequest::%s is not routed to %s' % (variant, fn), 'routed')
-        ck.require(h.rec.get('trait_args') is not None, 'R05a', 'handle:exists', h.where(), '')
     for fn in FUNNEL:
         b = ck.body(IM + fn, 'R05a')
         if not b:
@@ -231,7 +234,7 @@ def r05d(ck, fb):
     if m:
         sd = util.sends(m, r'RaftIndexRequest$', 'LoadMember')
         ck.require(len(sd) >= 1, 'R05d', 'get_membership_config:LoadMember', m.where(), 'membership is not loaded from the index manager')
-    h = fb.bodies.get(HANDLER)
+    h = util.body_with_call(fb, fb.bodies.get(HANDLER), re.escape(IM + 'write_hard_state') + '$')
     if h:
         ms = h.aggregates(r'raftindex::RaftIndexResponse$', 'MemberShip')
         ck.require(len(ms) >= 1, 'R05d', 'LoadMember:answers', h.where(), 'LoadMember answer not found')
@@ -295,3 +298,25 @@ def r05e(ck, fb):
         for i in oks:
             n = sum(1 for (adt, v) in util.variant_guards(b, i) if v == 'Continue')
             ck.require(n >= 1, 'R05e', 'save_hard_state:errors-propagate', b.where(i), 'errors of the save are not propagated (missing ?)')
+
+
+def r05g(ck, fb):
+    ck.rule('R05g', 'a save is acknowledged after it is in the file: RaftIndexManager registers every file write with ctx.wait (R05a), which only '
+                    'STARTS it after the handler returned; the answer of Handler<RaftIndexRequest> must therefore travel through the context\'s '
+                    'future queue (a ResponseActFuture is polled only when no wait future is left), not be a plain value that actix sends back at '
+                    'once - otherwise save_hard_state returns while the index file still holds the old term and vote')
+    hs = [b for b in fb.find(r'RaftIndexManager as actix::Handler<rnacos::raft::filestore::raftindex::RaftIndexRequest>>::handle$')]
+    if not ck.require(len(hs) >= 1, 'R05g', 'anchor:handler', '-', 'Handler<RaftIndexRequest> for RaftIndexManager not found'):
+        return
+    h = hs[0]
+    ck.analysed(h)
+    ty = h.local_ty(0) or ''
+    detached = False
+    for x in util.region(fb, h):
+        if x.calls(r'ContextFutureSpawner::wait$|AsyncContext::wait$'):
+            detached = True
+    fut = 'ActorFuture' in ty or 'ResponseActFuture' in ty or 'Pin<' in ty
+    ck.require((not detached) or fut, 'R05g', 'handler:answer-after-wait-futures', h.where(),
+               'the handler answers with a plain %s while the write it triggers is only queued with ctx.wait: the caller (save_hard_state, SaveMember, '
+               'AddNodeAddr) is acknowledged before the write has started - a copy of the index file taken right after the acknowledgement still holds '
+               'the previous term and vote' % ty[:60], 'answer delivered as an actor future')
